@@ -84,6 +84,7 @@ def run(ctx):
     # ---- order traces of sequential runs (WalOrder.tla): no page or header write while a statement holds the shared lock,
     # every flush between statements; small page caches (8-16 pages) put the cache under pressure inside statements
     import storelib
+    storelib.walorder_design(ctx, cov, live=not ctx.quick())
     sbin = vlib.build_harness(ctx, "store")
     pool = vlib.WorkerPool(ctx, sbin)
     try:
